@@ -62,6 +62,13 @@ def run(ctx):
     except ImportError:
         pass
     scan_record(ctx)
+    # SCAN takes the header parsers' results as "the decoded headers": the fields the tally is keyed by must be decoded as
+    # the layout says (ECU id present exactly when the WEID flag is set and a copy of its 4 bytes; extended-header flag;
+    # application / context id; verbose flag and message type) — shared with C02 / C19
+    from rules import lib_wirep
+    lib_wirep.check_standard(ctx, "HDR-D", only={"ecu_id", "has_extended_header"})
+    lib_wirep.check_extended(ctx, "HDR-D", only={"application_id", "context_id", "verbose", "message_type"})
+    R.floor("HDR-D", 2)
     # the tally classifies by the decoded level: the message-info decoder must follow the DLT table (shared with C14)
     from rules import lib_codes
     lib_codes.check_msin(ctx)
